@@ -28,11 +28,20 @@
   `gotree rename` (open finding F45, model Model/C19Rename):
     Rename.renameMode_explicit_default_partial, …_fails, renameMode_replace_default_fails,
     Rename.renameModeByValue_explicit_default (the proposed repair satisfies the full statement)
+  Global options after parsing (model Model/C19PreRun of cmd/root.go PersistentPreRun, comparetrees clamp):
+    PreRun.preRun_defaults, formatOf_unknown, seedOf_none_iff, reproducible_iff, clampThreads_default/_le/_idem
+  Option glue of the anchored commands (Model/C19Glue): Glue.consensusAccepts_iff, consensus_default_accepted,
+    divide_default_names, annotate_none_is_default, annotate_map_priority, setmin_default_noop, setmin_ge,
+    commentTargets_default/_given, autoLength_default/_ge, topologiesNbTips_input/_default,
+    writes_all_modelled (table (e) Gen/C19Writes.lean: every post-parse assignment to an option variable is modelled)
   `gotree brlen setrand` (open finding F55 / SetrandMeanRangeGiven): Setrand.meanRange_explicit_default_partial, …_defaults_fails
 -/
 import Gotree.Lemmas.C19
 import Gotree.Gen.C19Flags
 import Gotree.Lemmas.C19Rename
+import Gotree.Model.C19PreRun
+import Gotree.Model.C19Glue
+import Gotree.Gen.C19Writes
 
 namespace Gotree.C19
 
@@ -442,6 +451,13 @@ theorem renameMode_explicit_default_partial (cl : CmdLine) (f : String) (h : cha
   · have hy : (f == "replace") = false := by simpa using hr
     simp [hy]
 
+/-- the same for everything the driver compares runs by (`behaviour`: the branch and the values it reads) -/
+theorem behaviour_explicit_default_partial (cl : CmdLine) (f : String) (h : changed cl f = false)
+    (h1 : f ≠ "regexp") (h2 : f = "replace" → changed cl "regexp" = false) :
+    behaviour (cl ++ [(f, defaultOf f)]) = behaviour cl := by
+  unfold behaviour
+  simp only [renameMode_explicit_default_partial cl f h h1 h2, value_append_default cl f _ h]
+
 /-- the excluded region is a real difference: `rename -m m.txt --regexp none` is refused, `rename -m m.txt` renames -/
 theorem renameMode_explicit_default_fails :
     renameMode [("map", "m.txt"), ("regexp", defaultOf "regexp")] = .errReplaceMissing ∧
@@ -482,5 +498,118 @@ theorem meanRange_explicit_defaults_fails :
     meanRange false false defaultMin defaultMax = none := by decide +kernel
 
 end Setrand
+
+/-! ### what the documented defaults of the global options mean (cmd/root.go PersistentPreRun) -/
+
+namespace PreRun
+
+/-- with the documented defaults: Newick input, seed from the clock -/
+theorem preRun_defaults : preRun defaultFormat defaultSeed = ⟨.newick, none⟩ := by decide
+
+/-- every text that is not one of the four names is silently the documented default -/
+theorem formatOf_unknown (s : String) (h1 : s ≠ "nexus") (h2 : s ≠ "phyloxml") (h3 : s ≠ "nextstrain") :
+    formatOf s = formatOf defaultFormat := by
+  unfold formatOf defaultFormat
+  split <;> simp_all
+
+/-- the documented default of --seed is the only value that is not a seed: omitted and `--seed=-1`
+    are both "clock", and no option value asks for the literal seed -1 -/
+theorem seedOf_none_iff (s : Int) : seedOf s = none ↔ s = defaultSeed := by
+  unfold seedOf defaultSeed
+  by_cases h : s = -1
+  · simp [h]
+  · simp [h]
+
+theorem reproducible_iff (s : Int) : reproducible s = true ↔ s ≠ defaultSeed := by
+  unfold reproducible
+  rw [Option.isSome_iff_ne_none, ne_eq, seedOf_none_iff]
+
+/-- the clamp of `compare trees` never touches the documented default of --threads, is idempotent and bounded -/
+theorem clampThreads_default (maxcpus : Int) (h : 1 ≤ maxcpus) : clampThreads defaultThreads maxcpus = defaultThreads := by
+  unfold clampThreads defaultThreads
+  have : ¬ (1 : Int) > maxcpus := by omega
+  simp [this]
+
+theorem clampThreads_le (t maxcpus : Int) : clampThreads t maxcpus ≤ maxcpus := by
+  unfold clampThreads
+  split <;> omega
+
+theorem clampThreads_idem (t maxcpus : Int) : clampThreads (clampThreads t maxcpus) maxcpus = clampThreads t maxcpus := by
+  unfold clampThreads
+  split <;> simp_all
+
+end PreRun
+
+/-! ### what the anchored commands do with the documented default (Model/C19Glue) -/
+
+namespace Glue
+
+theorem consensusAccepts_iff (f : Rat) : consensusAccepts f = true ↔ 1 / 2 ≤ f ∧ f ≤ 1 := by
+  unfold consensusAccepts
+  simp only [Bool.not_eq_true', Bool.or_eq_false_iff, decide_eq_false_iff_not, Rat.not_lt]
+
+/-- the documented default of `compute consensus --freq-min` is accepted (it is the smallest accepted
+    value), while the default the option took before fix 7e6fdde (0, from `brlen setmin --length`) is refused -/
+theorem consensus_default_accepted : consensusAccepts defaultFreqMin = true ∧ consensusAccepts 0 = false := by decide +kernel
+
+/-- with its documented default `divide` writes prefix_000.nw, prefix_001.nw, …; before fix 152b9fc it wrote stdout_000.nw … -/
+theorem divide_default_names :
+    divideNames defaultPrefix 3 = ["prefix_000.nw", "prefix_001.nw", "prefix_002.nw"] ∧
+    divideNames "stdout" 2 = ["stdout_000.nw", "stdout_001.nw"] := by decide +kernel
+
+/-- `annotate`: the file name "none" for the compared tree means the documented default "stdin";
+    with a map file the compared tree is not read at all -/
+theorem annotate_none_is_default (mapfile : String) : annotateSource mapfile "none" = annotateSource mapfile "stdin" := by
+  unfold annotateSource
+  split <;> simp
+
+theorem annotate_map_priority (mapfile c c' : String) (h : mapfile ≠ "none") :
+    annotateSource mapfile c = annotateSource mapfile c' := by
+  unfold annotateSource
+  simp [h]
+
+/-- with its documented default 0, `brlen setmin` changes no branch of non-negative length (and -1 = "no length" becomes 0) -/
+theorem setmin_default_noop (external internal isTip : Bool) (len : Rat) (h : 0 ≤ len) :
+    setmin 0 external internal isTip len = len := by
+  unfold setmin
+  have : ¬ len < 0 := Rat.not_lt.mpr h
+  simp [this]
+
+theorem setmin_ge (c : Rat) (isTip : Bool) (len : Rat) : c ≤ setmin c true true isTip len ∨ setmin c true true isTip len = len := by
+  unfold setmin
+  by_cases h : len < c
+  · left; cases isTip <;> simp [h]
+  · right; cases isTip <;> simp [h]
+
+/-- neither --edges-only nor --nodes-only (the documented defaults) means BOTH kinds of comments,
+    exactly as giving both; spelling the defaults out is the same as omitting them (value-based test) -/
+theorem commentTargets_default : commentTargets false false = (true, true) ∧ commentTargets false false = commentTargets true true := by decide
+
+theorem commentTargets_given (e n : Bool) (h : e = true ∨ n = true) : commentTargets e n = (e, n) := by
+  unfold commentTargets
+  rcases h with h | h <;> simp [h]
+
+/-- the floor of `rename --length` leaves the documented default 10 alone -/
+theorem autoLength_default : autoLength 10 = 10 := by decide
+
+theorem autoLength_ge (l : Int) : 5 ≤ autoLength l ∧ (5 ≤ l → autoLength l = l) := by
+  unfold autoLength
+  constructor
+  · split <;> omega
+  · intro h
+    have : ¬ l < 5 := by omega
+    simp [this]
+
+/-- `generate topologies`: with an input tree --nbtips (documented default 10) is not read at all -/
+theorem topologiesNbTips_input (n m : Int) (k : Nat) : topologiesNbTips n (some k) = topologiesNbTips m (some k) := rfl
+
+theorem topologiesNbTips_default (n : Int) : topologiesNbTips n none = n := rfl
+
+/-- table (e), regenerated from the source each run: every assignment to an option variable made
+    after parsing is one the models account for (a new one makes this decision fail) -/
+theorem writes_all_modelled : Gotree.Gen.C19Writes.writes.all isModelled = true ∧ Gotree.Gen.C19Writes.problems = [] := by
+  decide +kernel
+
+end Glue
 
 end Gotree.C19
